@@ -511,12 +511,15 @@ Definition hash_rules (ha : N) : list rule :=
 
 (* [E] "Invalid cipher direction" / "Invalid cipher mode" / "Invalid hash algorithm";
    the direction is irrelevant for the NULL cipher [code] *)
-Definition common_rules : list rule :=
-  [ "cipher direction is ENCRYPT or DECRYPT (unless NULL cipher)"%string :::
-      Either (ValIn jv_cipher_direction [IMB_DIR_ENCRYPT; IMB_DIR_DECRYPT]) (ValIn jv_cipher_mode [IMB_CIPHER_NULL])
-      ==> IMB_ERR_JOB_CIPH_DIR;
-    "cipher mode is supported"%string ::: ValIn jv_cipher_mode (map fst cipher_catalogue) ==> IMB_ERR_CIPH_MODE;
-    "hash algorithm is supported"%string ::: ValIn jv_hash_alg (map fst hash_catalogue) ==> IMB_ERR_HASH_ALGO ].
+Definition r_common_dir :=
+  "cipher direction is ENCRYPT or DECRYPT (unless NULL cipher)"%string :::
+    Either (ValIn jv_cipher_direction [IMB_DIR_ENCRYPT; IMB_DIR_DECRYPT]) (ValIn jv_cipher_mode [IMB_CIPHER_NULL])
+    ==> IMB_ERR_JOB_CIPH_DIR.
+Definition r_common_mode :=
+  "cipher mode is supported"%string ::: ValIn jv_cipher_mode (map fst cipher_catalogue) ==> IMB_ERR_CIPH_MODE.
+Definition r_common_hash :=
+  "hash algorithm is supported"%string ::: ValIn jv_hash_alg (map fst hash_catalogue) ==> IMB_ERR_HASH_ALGO.
+Definition common_rules : list rule := [ r_common_dir; r_common_mode; r_common_hash ].
 
 Definition all_rules (j : job_view) : list rule :=
   common_rules ++ cipher_rules (jv_cipher_mode j) ++ hash_rules (jv_hash_alg j).
